@@ -1633,10 +1633,14 @@ void EvalStrExpression(tStrComp const* pExpr, TempResult* pErg) {
                 TempResultToInt(&InVals[z1]);
             }
             if (!(pFunction->ArgTypes[z1] & (1 << InVals[z1].Typ))) {
+                /* ArgTypes holds (1 << type) bits, the message selector wants the type values */
+                unsigned ArgMask = pFunction->ArgTypes[z1];
+                unsigned TypeMask = ((ArgMask & (1 << TempInt)) ? TempInt : 0)
+                                    | ((ArgMask & (1 << TempFloat)) ? TempFloat : 0)
+                                    | ((ArgMask & (1 << TempString)) ? TempString : 0);
+
                 WrStrErrorPos(
-                        DeduceExpectTypeErrMsgMask(
-                                pFunction->ArgTypes[z1], InVals[z1].Typ),
-                        &InArgs[z1]);
+                        DeduceExpectTypeErrMsgMask(TypeMask, InVals[z1].Typ), &InArgs[z1]);
                 LEAVE;
             }
         }
